@@ -51,7 +51,9 @@ FLOW_POOL = ["f", "Flow B", "flow c"]
 GHOST_POOL = ["campaign only flow", "Elsewhere"]        # flows named by campaign events only, never defined
 GIVEN_GROUP_UUID = {g: "aaaaaaaa-0000-4000-8000-%012d" % i for i, g in enumerate(GROUP_POOL)}
 LABELS = ["Created On", "last seen on", "X", "a1 b2", "MiXeD Case", "Two  Spaces", "under_score", "A-b.c",
-          "Signup Date 2", "q", "abcdefghijklmnopqrstuvwxyz0123456789", "AB CD EF GH IJ KL MN OP QR ST UV WX"]
+          "Signup Date 2", "q", "abcdefghijklmnopqrstuvwxyz0123456789", "AB CD EF GH IJ KL MN OP QR ST UV WX",
+          # different spellings of ONE field (same derived key): every event keeps the label its own row wrote
+          "created on", "Created_On", "CREATED ON", "Last Seen On", "last_seen_on", "x"]
 OFFSETS = ["0", "15", "-3", "+7", "1_000", "007", "150", "-0", "2"]
 HOURS = ["", "", "0", "7", "12", "23", "-1", "08"]
 MESSAGES = ["Hello", "Hi there, friend!", "a;b|c\\d", "Ünïcode ✓ 日本", "line one\nline two", "x", "100%", "M"]
